@@ -122,6 +122,9 @@ func main() {
 			fmt.Println("   note:", s)
 		}
 		for _, o := range vc.obls {
+			if o.Status == "unsat" && o.Secs > 1.5 {
+				fmt.Printf("   slow %s [%s %.2fs]\n", o.Name, o.Solver, o.Secs)
+			}
 			if o.Status != "unsat" {
 				bad++
 				fmt.Printf("   FAIL %s [%s %s %.2fs] %s (%s:%d)\n", o.Name, o.Solver, o.Status, o.Secs, o.Desc, o.Pos.Filename, o.Pos.Line)
